@@ -17,6 +17,7 @@ for f in db.functions:
     ls = [(v.n, v.t or '', normal.init_shape(v)) for v in normal.locals_of(f)]
     if ls:
         out[normal.fkey(f)] = ls
+out['__relations__'] = {normal.fkey(f): normal.relations_of(f) for f in db.functions if f.body is not None and normal.relations_of(f)}
 out['__functions__'] = sorted({normal.fkey(f) for f in db.functions if f.body is not None})
 json.dump(out, open(os.path.join(HERE, 'sa', 'baseline_locals.json'), 'w'), indent=0, sort_keys=True)
 print(len(out), 'functions with locals recorded')
